@@ -156,7 +156,7 @@ var props = map[string]*propConfig{
 	"C05": {
 		Harness: "h1", Level: "fault_enumeration",
 		Families: []family{
-			{Name: "call-failures", Flags: map[string]string{"family": "enum"}, Quick: 500, Thorough: 96000},
+			{Name: "call-failures", Flags: map[string]string{"family": "enum"}, Quick: 800, Thorough: 96000},
 			{Name: "corruption-at-rest", Flags: map[string]string{"family": "corruption"}, Quick: 10000, Thorough: 3200000},
 			{Name: "upload-failures", Harness: "h2", Flags: map[string]string{"family": "upload"}, Quick: 240, Thorough: 80000},
 		},
